@@ -22,6 +22,7 @@ and many options to consider when collecting.
 """
 
 import abc
+import types
 from collections.abc import Mapping
 from typing import List
 
@@ -65,6 +66,12 @@ ITER_LIKE_TYPES = [
 
 # We cannot process child nodes of iterators so add the iterator types to the no child types.
 NO_CHILD_TYPES += ITER_LIKE_TYPES
+
+ITER_LIKE_CLASSES = (type(iter([])), type(reversed([])))
+"""The types behind ITER_LIKE_TYPES (a class of the application can be called list_iterator, and is no iterator)."""
+
+NO_CHILD_CLASSES = (str, int, float, bool, type, types.ModuleType, type(None), types.TracebackType) + ITER_LIKE_CLASSES
+"""The types behind NO_CHILD_TYPES: a class of the application called module, type or long has attributes to show."""
 
 
 class Collector(abc.ABC):
@@ -192,7 +199,7 @@ def variable_to_string(variable_type, var_value):
     :param var_value: the variable value
     :return: a string of the value
     """
-    if variable_type.__name__ in ITER_LIKE_TYPES:
+    if variable_type in ITER_LIKE_CLASSES:
         # if interator like then make a custom string - we do not want to mess with iterators
         return 'Iterator of type: %s' % variable_type
     elif variable_type is dict \
@@ -279,7 +286,7 @@ def process_child_nodes(
     """
     variable_type = type(var_value)
     # if the type is a type we do not want children from - return empty
-    if variable_type.__name__ in NO_CHILD_TYPES:
+    if variable_type in NO_CHILD_CLASSES:
         return []
 
     # if the depth is more than we are configured - return empty
